@@ -87,3 +87,28 @@ CHECKS["C10"] = dict(
                  "points elements tying with the radius / k-th distance within 1e-12 relative may be kept or pruned (the computed function "
                  "is a metric only up to rounding; confirmed by a strict-mode probe: 1 boundary-tie miss in 20000 cases)"],
 )
+
+CHECKS["C18"] = dict(
+    src="harness/C18_ptc.cpp",
+    cases=dict(quick=300000, thorough=4000000),
+    fuzz=dict(runs=3000000, maxlen=300),
+    rule="Case = one of: (52%) combinator tree (1..5 leaves from {predicate with generated bit trace, always, never, iteration(n)}, joined by "
+         "or/and in generated shape) driven by <=30 steps of eval(root via eval() or operator()) / eval(any node) / terminate(any node), "
+         "compared with a reference interpreter on value AND per-predicate invocation counts (short-circuit, sticky terminate, shared state "
+         "of copies); (13%) iteration(n) through eval() or the converted condition, with reset(); (22%) cost-convergence: window 1..8, "
+         "eps log-uniform 1e-3..1 or default, generated cost sequences fed through the pdef's intermediate-solution callback, fired index "
+         "compared with the harness's re-implementation of the documented moving-average rule (rounding-borderline cases unjudged, counted); "
+         "(13%) exact-solution condition under add-exact / add-approximate / clear sequences; (<1%, they cost real time) timed and periodic "
+         "forms with a load-immune bracketing oracle. Non-trivial = tree depth >=2 or terminate() strictly inside the trace; iteration "
+         "evaluated past n>0; convergence index > window; pdef holding both exact and approximate solutions; every timed case.",
+    technique="property-based testing against a reference interpreter (value + invocation counts) and bracketing oracle for timed forms; "
+              "libFuzzer on the same target in thorough",
+    level_text="Generated condition trees, traces, cost sequences and terminate() interleavings (single thread; cross-thread terminate is "
+               "C19) are compared with a reference interpreter; timed forms are judged only by inequalities that hold under any scheduling "
+               "delay. Exploration-level.",
+    level_note="Trusted: the reference interpreter and the harness's reading of the documented convergence rule; timed clauses use the "
+               "same system clock as ompl::time and allow 2 us for its microsecond truncation; a periodic condition later than "
+               "3 periods + 2 s is called a violation only after 3 reproductions in fresh processes.",
+    assumptions=["solution costs fed to the convergence condition are > 0",
+                 "cost-convergence verdicts within 1e-12 relative of the (1 +- eps) thresholds are not judged"],
+)
